@@ -63,12 +63,16 @@ CHECKS = {
     ),
     'C04': dict(
         category='proof',
-        text='Slice: the three-valued predicate algebra (operator!, &&, || of pred_result) lowered per run from pred_result.hh; '
+        text='Slice: (1) the three-valued predicate algebra (operator!, &&, || of pred_result) lowered per run from pred_result.hh; '
              'contracts over all 3 / 3x3 values and client lemmas from the contract of ! alone: ?X and !X never both hold, exactly '
-             'one holds unless X fails, neither holds when X fails, double negation is the identity.',
+             'one holds unless X fails, neither holds when X fails, double negation is the identity. (2) From op.cc: op_assert::next '
+             'hands on exactly those upstream stacks, in order and as the very same objects, on which its predicate says yes '
+             '(loop contract with a ghost index: unbounded in the number of upstream stacks); pred_not/and/or::result evaluate '
+             'their operands on the stack they were given and combine verdicts by the tables. Virtual op::next and pred::result '
+             'are modelled.',
         design_ref='DESIGN.md section 4 C04',
-        note='SLICE ONLY: that assertions and sub-expression contexts leave the incoming stack unchanged (op_assert, pred_subx_any, '
-             'op_subx) is not covered.',
+        note='SLICE ONLY: sub-expression contexts (op_subx, pred_subx_any), let and capture are not covered; the model predicate '
+             'does not modify its stack (whether real predicates do is not covered).',
         technique='CBMC code contracts on C lowered from the real C++ per run',
     ),
     'C20': dict(
